@@ -15,7 +15,7 @@ Oracle (property statement + reference/expressions.md "Import Expressions", "Inc
       `fail "FAILMSG[@]" % (<import/include>)` the build must fail and the error text must carry FAILMSG[<reference value>].
   (b) every project file has `let t = TRACE "<tag>";`: a file reached through evaluated positions prints exactly one TRACE line per build
       however often / under however many spellings it is imported (a file reached only through a let constraint: at most one).
-  (c) a project whose import graph has a cycle through evaluated positions ends (within 60 s next to 7 other builds, else within 180 s alone) with exit status > 0 (not 134/139/a signal)
+  (c) a project whose import graph has a cycle through evaluated positions ends (within 60 s next to 7 other builds, else within 120 s alone, see run_all) with exit status > 0 (not 134/139/a signal)
       and a diagnostic that contains "cycle" (any case).
 Positions covered: top-level let (whole tuple and selector), tuple field, list element, select arm, function body, map / filter / reduce
 callback, callback nested in a function / in a module, module body (expression and `let x = import` statement), module out expression,
@@ -23,6 +23,8 @@ let constraint, fail message.  Spellings: plain, ./, ./././, a/./b, child/../, .
 Bounded: exactly the enumerated projects; never a proof."""
 import concurrent.futures
 import json
+import threading
+import time
 import os
 import posixpath
 import random
@@ -35,8 +37,9 @@ import zlib
 import realcode as R
 
 TIMEOUT = 60          # seconds per build while up to WORKERS projects run in parallel (the machine may be heavily loaded)
-TIMEOUT_ALONE = 180   # a build that timed out is repeated once with nothing else of this module running
+TIMEOUT_ALONE = 120   # the FIRST build that timed out is repeated once with nothing else of this module running
 WORKERS = 8
+ABORT_AFTER = 2       # once this many builds of a stand-in have timed out, its remaining builds are not started / are stopped
 UNRELATED = 'other/u1/u2/u3/u4/u5'     # deep enough that `../../../..` from it stays inside the temp directory
 DECOY_V = 900001
 ROOTMARK = '@ROOT@'   # absolute spellings: replaced by the project root when the files are written
@@ -319,9 +322,47 @@ def must_evaluate(pr):
     return seen
 
 
-def run_project(pr, timeout=None, alone=False):
-    """Builds one project from the three working directories; returns None, a violation description (dict with `detail`),
-    {'retry': True} (a build timed out while other projects were running: to be repeated alone) or {'error': ...} (harness problem)."""
+class Control:
+    """shared by the builds of one stand-in run: counts builds that timed out; once ABORT_AFTER of them have, the rest is not run"""
+
+    def __init__(self, limit=ABORT_AFTER):
+        self.lock = threading.Lock()
+        self.timeouts = 0
+        self.limit = limit
+
+    def note_timeout(self):
+        with self.lock:
+            self.timeouts += 1
+
+    def aborted(self):
+        return self.timeouts >= self.limit
+
+
+def run_build(args, cwd, timeout, ctl=None):
+    """the real `ucg <args>` in cwd -> (rc, stdout, stderr); rc is 'timeout' after `timeout` seconds, 'aborted' when ctl says that enough other builds
+    have timed out (the process is killed in both cases)"""
+    p = subprocess.Popen([R.ucg_binary()] + args, cwd=cwd, stdout=subprocess.PIPE, stderr=subprocess.PIPE, text=True)
+    t0 = time.time()
+    while True:
+        try:
+            so, se = p.communicate(timeout=1.0)
+            return p.returncode, so, se
+        except subprocess.TimeoutExpired:
+            late = time.time() - t0 > timeout
+            if late or (ctl is not None and ctl.aborted()):
+                p.kill()
+                try:
+                    p.communicate(timeout=10)
+                except Exception:
+                    pass
+                return ('timeout' if late else 'aborted'), '', ''
+
+
+def run_project(pr, timeout=None, final=False, ctl=None, only_build=None):
+    """Builds one project from the three working directories; returns None, a violation description (dict with `detail`), {'error': ...} (harness
+    problem) or a marker: {'retry': True, 'build': k} (build k timed out, not final: to be looked at alone), {'skipped': True} (enough other builds of the
+    stand-in had timed out), {'finished': True} (only_build=k: that one build came to an end; nothing is judged).
+    final: a build that times out is judged (cyclic project: violation; acyclic: harness error) and ends the project."""
     timeout = timeout or TIMEOUT
     memo = reference(pr)
     kind = classify(pr, memo)
@@ -332,17 +373,28 @@ def run_project(pr, timeout=None, alone=False):
         root = posixpath.join(tmp, 'proj')
         art = posixpath.join(root, re.sub(r'\.ucg$', '.json', main['path']))
         obs = []
-        for label, cwd, arg in builds:
+        for bi, (label, cwd, arg) in enumerate(builds):
+            if only_build is not None and bi != only_build:
+                continue
+            if ctl is not None and ctl.aborted():
+                return dict(skipped=True)
             if os.path.exists(art):
                 os.remove(art)
-            try:
-                rc, so, se = R.run_ucg(['build', arg], cwd, timeout=timeout)
-            except subprocess.TimeoutExpired:
-                if not alone:
-                    return dict(retry=True)
-                rc, so, se = 'timeout', '', 'no result within %d s (run alone)' % timeout
+            rc, so, se = run_build(['build', arg], cwd, timeout, ctl)
+            if rc == 'aborted':
+                return dict(skipped=True)
+            if rc == 'timeout':
+                if ctl is not None:
+                    ctl.note_timeout()
+                if not final:
+                    return dict(retry=True, build=bi)
+                se = 'no result within %d s' % timeout
+            elif only_build is not None:
+                return dict(finished=True)
             data = open(art).read() if os.path.exists(art) else None
             obs.append(dict(label=label, cwd=cwd, arg=arg, rc=rc, out=so + se, stderr=se, art=data))
+            if rc == 'timeout':
+                break               # judged below; the other working directories are not tried
         if os.path.exists(art):
             os.remove(art)
 
@@ -356,7 +408,7 @@ def run_project(pr, timeout=None, alone=False):
             exp = 'exit status > 0, a diagnostic that mentions an import cycle, no crash, no endless recursion'
             for o in obs:
                 if o['rc'] == 'timeout':
-                    return bad(o, exp, 'no result within %d s, also when run alone' % timeout)
+                    return bad(o, exp, 'no result within %d s (%s)' % (timeout, 'also when run alone' if only_build is not None else 'second run of the stand-in, 4 builds at a time'))
                 if o['rc'] in (134, 139) or o['rc'] < 0:
                     return bad(o, exp, 'the process crashed (status %s) instead of reporting the cycle' % o['rc'])
                 if o['rc'] == 0:
@@ -368,7 +420,8 @@ def run_project(pr, timeout=None, alone=False):
             return None
         for o in obs:
             if o['rc'] == 'timeout':        # the statement gives no time bound for an acyclic build: a harness problem, not a violation
-                return dict(error='%s: `ucg build %s` from the %s gave no result within %d s although it ran alone' % (pr['name'], o['arg'], o['label'], timeout))
+                return dict(error='%s: `ucg build %s` from the %s gave no result within %d s (%s)' % (pr['name'], o['arg'], o['label'], timeout,
+                                                                                                    'although it ran alone' if only_build is not None else 'second run of the stand-in, 4 builds at a time'))
             if 'DECOY' in o['out'] or 'DECOY' in (o['art'] or '') or str(DECOY_V) in (o['art'] or ''):
                 return bad(o, 'only files relative to the importing file are read', 'a DECOY file (resolved against another directory) was read')
         if kind == 'value':
@@ -406,27 +459,68 @@ def run_project(pr, timeout=None, alone=False):
         shutil.rmtree(tmp, ignore_errors=True)
 
 
+# a hang that was confirmed with the build running alone is not looked for again by the stand-ins that follow in the same process:
+# cyclic projects are then left out (the violation has been reported); a stand-in asked again after a confirmed hang gives the same answer
+HANG = {}
+
+
+def _pool(projects, workers, timeout, final):
+    ctl = Control()
+    with concurrent.futures.ThreadPoolExecutor(max_workers=workers) as ex:
+        return list(ex.map(lambda p: run_project(p, timeout=timeout, final=final, ctl=ctl), projects))
+
+
 def run_all(name, bound, projects):
+    """Time bound (a tree whose builds never return must not cost more than ~5 minutes per stand-in): the pool stops starting / kills builds once
+    ABORT_AFTER builds have timed out (<= TIMEOUT + a second); then ONE build -- the first that timed out -- is repeated alone for TIMEOUT_ALONE seconds.
+    Still no end: violation (cyclic project) / harness error (acyclic), at once.  It ends (the machine was slow): the whole stand-in is run once more,
+    4 builds at a time with doubled time-outs, and whatever that gives is reported (a time-out there is final; again at most ABORT_AFTER of them)."""
+    if (name, bound) in HANG:
+        return dict(HANG[(name, bound)])
+    bound0, confirmed = bound, False
     for p in projects:
         reference(p)
     total = len(projects)
     projects = [p for p in projects if not known(p)]
+    note = '; %d more skipped as KNOWN %s' % (total - len(projects), KNOWN) if total > len(projects) else ''
+    if HANG.get('cyclic'):
+        k = len(projects)
+        projects = [p for p in projects if not p['cyclic']]
+        note += '; %d cyclic projects left out: a cyclic build that never ends was already reported by the stand-in `%s` of this run' % (k - len(projects), HANG['cyclic'])
     R.ucg_binary()
-    with concurrent.futures.ThreadPoolExecutor(max_workers=WORKERS) as ex:
-        res = list(ex.map(run_project, projects))
-    for i, r in enumerate(res):         # the pool is gone: builds that timed out are repeated one at a time
-        if r is not None and r.get('retry'):
-            res[i] = run_project(projects[i], timeout=TIMEOUT_ALONE, alone=True)
-    n = 3 * len(projects)
-    bound = '%s [%d projects x 3 working directories%s]' % (bound, len(projects), '; %d more skipped as KNOWN %s' % (total - len(projects), KNOWN) if total > len(projects) else '')
+    res = _pool(projects, WORKERS, TIMEOUT, False)
+    retry = [i for i, r in enumerate(res) if r is not None and r.get('retry')]
+    if retry and not any(r is not None and 'detail' in r for r in res):
+        i = retry[0]
+        r1 = run_project(projects[i], timeout=TIMEOUT_ALONE, final=True, only_build=res[i]['build'])
+        if r1 is not None and r1.get('finished'):
+            res = _pool(projects, 4, 2 * TIMEOUT, True)
+            note += '; run twice: builds timed out in the first run (%d at a time) but one of them ended when repeated alone' % WORKERS
+        else:
+            res, confirmed = [r1], True
+            if r1 is not None and 'detail' in r1:
+                HANG['cyclic'] = name
+    ran = [r for r in res if r is None or not (r.get('skipped') or r.get('retry'))]
+    n = 3 * len(ran)
+    if len(ran) < len(projects):
+        note += '; %d of the projects were not (completely) built: %d builds had timed out' % (len(projects) - len(ran), ABORT_AFTER)
+    bound = '%s [%d projects x 3 working directories%s]' % (bound, len(projects), note)
+    out = None
     for r in res:
         if r is not None and 'detail' in r:
-            return dict(name=name, bound=bound, cases=n, status='violation', detail=r['detail'][:700],
-                        input=dict(source=r['source'], decoys=r['decoys'], expected=r['expected'], observed=r['observed'], how=r['how']))
-    for r in res:
-        if r is not None:
-            return dict(name=name, bound=bound, cases=n, status='error', detail=r['error'][:700])
-    return dict(name=name, bound=bound, cases=n, status='ok')
+            out = dict(name=name, bound=bound, cases=n, status='violation', detail=r['detail'][:700],
+                       input=dict(source=r['source'], decoys=r['decoys'], expected=r['expected'], observed=r['observed'], how=r['how']))
+            break
+    if out is None:
+        for r in res:
+            if r is not None and 'error' in r:
+                out = dict(name=name, bound=bound, cases=n, status='error', detail=r['error'][:700])
+                break
+    if out is None:
+        return dict(name=name, bound=bound, cases=n, status='ok')
+    if confirmed:
+        HANG[(name, bound0)] = out  # confirmed alone: the same answer if the stand-in is asked again
+    return out
 
 
 # ----------------------------------------------------------------------------------------------- spellings
@@ -775,4 +869,130 @@ def standin_cycles(tier, seed):
                       'all' if tier == 'thorough' else '3..4', ), cycle_projects(tier, seed))
 
 
-STANDINS = [standin_positions, standin_spellings, standin_random_dags, standin_cycles]
+# ----------------------------------------------------------------------------------------------- family 5: user files whose names begin with `std`
+# The documentation imports the standard library as `import "std/lists.ucg"` (tutorials, stdlib pages): the path `std/<file>` is the library's.  Every OTHER
+# relative path is the user's and names a file relative to the importing file (statement) -- also when its first letters are s, t, d: a sibling file
+# stdvals.ucg / std.ucg, directories std_x/, stdx/, stdlib/, std2/, std.d/, STD/, and the user's own directory std/ when it is reached by a path that does not BEGIN
+# with `std/` (./std/q.ucg, stdx/../std/q.ucg).  What a bare `import "std/q.ucg"` does when the user has such a directory is not enumerated (the library's name
+# space).  The reference knows no library for `include`: `include str "std/d.txt"` is an ordinary relative path.
+STD_IMPORTS = ['stdvals.ucg', 'std.ucg', 'std_x/y.ucg', 'stdx/std/z.ucg', './std/q.ucg', 'stdlib/x.ucg', 'std2/a.ucg', 'stdx/../std/q.ucg', 'std.d/e.ucg', 'stdin.ucg', 'STD/u.ucg', 'std-lib/v.ucg',
+               './stdvals.ucg', 'std_x/../std.ucg', '././std/./q.ucg', 'stdx/std/../std/z.ucg']
+STD_INCLUDES = ['stdd.txt', 'std/d.txt', './std/d.txt', 'std_x/d.txt', 'std.txt', 'stdx/std/d.txt', 'std/sub/d.txt', 'stdx/../std/d.txt']
+STD_FILES = ['stdvals.ucg', 'std.ucg', 'std_x/y.ucg', 'stdx/std/z.ucg', 'std/q.ucg', 'stdlib/x.ucg', 'std2/a.ucg', 'std.d/e.ucg', 'stdin.ucg', 'STD/u.ucg', 'std-lib/v.ucg']
+STD_DATA = ['stdd.txt', 'std/d.txt', 'std_x/d.txt', 'std.txt', 'stdx/std/d.txt', 'std/sub/d.txt']
+
+
+def std_tree(base, v0):
+    """the std-named files and data files below the directory `base`, values from v0 on"""
+    files = [F(posixpath.join(base, p), v0 + 3 * i) for i, p in enumerate(STD_FILES)]
+    data = {posixpath.join(base, p): v0 + 100 + i for i, p in enumerate(STD_DATA)}
+    return files, data
+
+
+def std_projects(tier, seed):
+    out = []
+    rnd = random.Random(seed * 31 + 9)
+    imps, incs = STD_IMPORTS, STD_INCLUDES
+    pos_i, pos_n = EAGER_IMPORT_POS, EAGER_INCLUDE_POS
+    r1, r2 = seed % len(pos_i), (seed * 3 + 5) % len(pos_i)
+
+    def edges(rot, k_imp=None, k_inc=None):
+        e = [('import', s, pos_i[(i + rot) % len(pos_i)], i % 2 == 0) for i, s in enumerate(imps[:k_imp])]
+        e += [('include', s, pos_n[(i + rot) % len(pos_n)]) for i, s in enumerate(incs[:k_inc])]
+        return e
+    # 0. the smallest projects of the class (reported first)
+    out.append(project('one import of a sibling file stdvals.ucg', [F('conf/main.ucg', 3, [('import', 'stdvals.ucg', 'topsel')]), F('conf/stdvals.ucg', 8080)], nested='conf'))
+    out.append(project('one include of a text file below the user\'s std directory', [F('conf/main.ucg', 3, [('include', 'std/d.txt', 'topsel')])], data={'conf/std/d.txt': 8081}, nested='conf'))
+    out.append(project('one import from the user\'s own std directory, spelled ./std/q.ucg', [F('conf/main.ucg', 3, [('import', './std/q.ucg', 'top')]), F('conf/std/q.ucg', 8082)], nested='conf'))
+    # 1. the importing file is the main file, two levels below the project root; the same names exist (other values) in the project root = the first working directory
+    f1, d1 = std_tree('app/sub', 500)
+    f0, d0 = std_tree('', 2000)
+    out.append(project('main file imports / includes siblings whose names begin with std (same names with other values in the project root)',
+                       [F('app/sub/main.ucg', 3, edges(r1))] + f1 + f0, data=dict(d1, **d0), nested='app'))
+    # 2. the importing file is itself imported (from a main file in another directory); let-imports first
+    f2, d2 = std_tree('lib/core', 700)
+    out.append(project('an imported file imports / includes siblings whose names begin with std',
+                       [F('app/main.ucg', 5, [('import', '../lib/core/mid.ucg', 'top')]), F('lib/core/mid.ucg', 11, [('import', s, 'top') for s in imps[:6]] + edges(r2))] + f2, data=d2, nested='lib'))
+    # 3. the main file sits in the project root and is built as ./main.ucg / by absolute path / by a relative path from elsewhere; files INSIDE std-named directories import their neighbours
+    f3, d3 = std_tree('', 900)
+    f3 = [f for f in f3 if f['path'] not in ('stdlib/x.ucg', 'std/q.ucg', 'stdx/std/z.ucg')]
+    f3 += [F('stdlib/x.ucg', 21, [('import', 'stdy.ucg', 'top'), ('import', '../std.ucg', 'func'), ('import', './std/w.ucg', 'map'), ('include', 'std/d.txt', 'reduce'), ('include', '../stdd.txt', 'topsel')]),
+           F('stdlib/stdy.ucg', 23), F('stdlib/std/w.ucg', 27, [('import', '../stdy.ucg', 'topsel'), ('import', '../../std/q.ucg', 'modbody')]),
+           F('std/q.ucg', 29, [('import', 'stdq2.ucg', 'top'), ('import', '../stdx/std/z.ucg', 'filter'), ('include', 'd.txt', 'func')]), F('std/stdq2.ucg', 31),
+           F('stdx/std/z.ucg', 33, [('import', '../../std/stdq2.ucg', 'modout'), ('import', 'std.ucg', 'top')]), F('stdx/std/std.ucg', 37)]
+    d3.update({'stdlib/std/d.txt': 41})
+    out.append(project('main file in the project root; files inside std-named directories import their neighbours',
+                       [F('main.ucg', 7, edges(0, 8, 5))] + f3, data=d3, nested='stdlib', args=dict(root='dot', nested='abs', unrelated='rel')))
+    # 4. fail message / let constraint positions
+    f4, d4 = std_tree('app/sub', 1100)
+    out.append(project('fail message imports a sibling whose name begins with std',
+                       [F('app/sub/main.ucg', 3, [('import', 'stdvals.ucg', 'letc'), ('import', 'std_x/y.ucg', 'top'), ('import', './std/q.ucg', 'fail')])] + f4, data=d4, nested='app'))
+    out.append(project('fail message includes a text file below the user\'s std directory',
+                       [F('app/sub/main.ucg', 3, [('include', 'stdd.txt', 'topsel'), ('include', 'std/d.txt', 'fail')])] + f4, data=d4, nested='app'))
+    # 5. cycles through std-named files are still cycles
+    out.append(project('2-cycle stdvals.ucg <-> std_b.ucg below the main file',
+                       [F('main.ucg', 1, [('import', 'app/stdvals.ucg', 'top')]), F('app/stdvals.ucg', 2, [('import', 'std_b.ucg', 'topsel')]), F('app/std_b.ucg', 3, [('import', 'stdvals.ucg', 'top')])],
+                       nested='app', cyclic=True))
+    out.append(project('3-cycle through the user\'s std directory',
+                       [F('app/main.ucg', 1, [('import', './std/a.ucg', 'top')]), F('app/std/a.ucg', 2, [('import', '../stdx/b.ucg', 'func')]), F('app/stdx/b.ucg', 3, [('import', '../std/../std/a.ucg', 'map')])],
+                       nested='app/std', cyclic=True))
+    if tier == 'thorough':
+        # every std spelling at every position (one project per position), importer in a nested directory
+        for k, p in enumerate([q for q in IMPORT_POS if q != 'fail']):
+            fk, dk = std_tree('a/b', 300 + 50 * k)
+            ed = [('import', s, p) for s in imps] + ([('include', s, p) for s in incs] if p in INCLUDE_POS else [])
+            out.append(project('every std-like name at position %s' % p, [F('a/b/main.ucg', 3, ed)] + fk, data=dk, nested='a',
+                               args=dict(root=['', 'dot'][k % 2], nested=['', 'abs'][(k // 2) % 2], unrelated=['', 'rel'][(k // 3) % 2])))
+        # random DAGs whose file and directory names all begin with std
+        for i in range(20):
+            out.append(random_std_project(rnd, i))
+    else:
+        out.append(random_std_project(rnd, 0))
+    return out
+
+
+STD_DIRPOOL = ['', 'std', 'stdx', 'stdx/std', 'std_lib/std', 'app', 'app/std', 'app/stdlib']
+
+
+def random_std_project(rnd, idx):
+    """random DAG in directories named std / stdx / ...; every file is called std<i>.ucg; a path that would BEGIN with `std/` is spelled with a leading ./"""
+    n = rnd.randint(3, 7)
+    dpool = rnd.sample(STD_DIRPOOL, rnd.randint(3, 5))
+    paths = [posixpath.join(rnd.choice(dpool), 'main.ucg' if i == 0 else 'std%d.ucg' % i) for i in range(n)]
+    data = {}
+    for i in range(n):
+        if rnd.random() < 0.6:
+            data[posixpath.join(posixpath.dirname(paths[i]), 'std%d.txt' % i)] = 50 + i
+    dirs = project_dirs(paths + list(data))
+    edges = [[] for _ in range(n)]
+
+    def sp(i, target):
+        s = spell(rnd.choice(STYLES), dirs, paths[i], target)
+        return './' + s if s.startswith('std/') else s
+    for j in range(1, n):
+        i = rnd.randrange(0, j)
+        edges[i].append(('import', sp(i, paths[j]), rnd.choice(EAGER_IMPORT_POS + ['top'] * 5)))
+    for _ in range(rnd.randint(1, n)):
+        i = rnd.randrange(0, n - 1)
+        edges[i].append(('import', sp(i, paths[rnd.randrange(i + 1, n)]), rnd.choice([p for p in IMPORT_POS if p != 'fail'])))
+    for _ in range(rnd.randint(1, 3) if data else 0):
+        i = rnd.randrange(0, n)
+        edges[i].append(('include', sp(i, rnd.choice(sorted(data))), rnd.choice(EAGER_INCLUDE_POS)))
+    for e in edges:
+        rnd.shuffle(e)
+    vs = rnd.sample(range(1, 400), n)
+    return project('random std-named DAG #%d (%d files)' % (idx, n), [F(paths[i], vs[i], edges[i]) for i in range(n)], data, nested=rnd.choice(sorted(d for d in dirs if d) or ['']),
+                   args=dict(root=rnd.choice(['', 'dot']), nested=rnd.choice(['', '', 'abs']), unrelated=rnd.choice(['', '', 'rel'])))
+
+
+def standin_std_names(tier, seed):
+    return run_all('std_names', 'project trees whose USER files / directories have names beginning with `std` (seed %d): %d import spellings (%s) and %d include spellings (%s) at rotating evaluated positions '
+                   'in the main file (two levels down, same names with other values in the project root), in an imported file (also as let-imports), from a main file in the project root built as ./main.ucg / '
+                   'absolute / relative-from-elsewhere with files inside std-named directories importing their neighbours, in fail messages and a let constraint, a 2- and a 3-cycle through std-named files, %s; '
+                   'a bare `std/<file>` import (the library\'s name space) is not enumerated'
+                   % (seed, len(STD_IMPORTS), ', '.join(STD_IMPORTS), len(STD_INCLUDES), ', '.join(STD_INCLUDES),
+                      'one project per position with every spelling, 20 random DAGs in directories std / stdx / stdx/std / ...' if tier == 'thorough' else '1 random DAG in directories std / stdx / stdx/std / ...'),
+                   std_projects(tier, seed))
+
+
+STANDINS = [standin_positions, standin_spellings, standin_random_dags, standin_cycles, standin_std_names]
